@@ -284,3 +284,71 @@ class FDD_mpe_method(Contract):
         c.oblige("post", "sel_freq forwarded", g["sel_freq"] is post["sel_freq"])
         c.oblige("post", "DF forwarded", sym.same(g["DF"], pre["DF"]))
         c.oblige("post", "results stored", isinstance(R1["Fn"], sym.Opaque) and R1["Fn"].tag == "Fn_out" and R1["Phi"].tag == "Phi_out")
+
+
+# ----------------------------------------------------------------------------------
+# EFDD / FSDD first stage: EFDD_mpe hands the decomposition of ITS spectral matrix, the caller's grid, frequencies and the
+# first-stage band DF1 to FDD_mpe (prefix contract: the path is cut at the call; the fit that follows is C07's subject)
+# ----------------------------------------------------------------------------------
+from pyvc.core import PathEnd   # noqa: E402
+
+
+@register
+class SD_svalsvec_flow(Contract):
+    qualname = "pyoma2.functions.fdd.SD_svalsvec"
+    name = "havoc-flow"
+    verify_body = False
+
+    def apply(self, interp, args, kwargs):
+        c = cur()
+        env = interp.bind(interp.repo.function(self.qualname), args, kwargs, None)
+        nch, nf = S.integer("Nch", lo=1), S.integer("nf", lo=2)
+        out = (S.array("Sval_of_Sy", "float", shape=(nch, nch, nf)), S.array("Svec_of_Sy", "complex", shape=(nch, nch, nf)))
+        c.memo["ghost:svalsvec"] = (env, out)
+        return out
+
+
+@register
+class FDD_mpe_first_stage(Contract):
+    qualname = "pyoma2.functions.fdd.FDD_mpe"
+    name = "first-stage-probe"
+    verify_body = False
+
+    def apply(self, interp, args, kwargs):
+        c = cur()
+        env = interp.bind(interp.repo.function(self.qualname), args, kwargs, None)
+        g = c.memo["ghost:efdd"]
+        sv = c.memo.get("ghost:svalsvec")
+        c.oblige("post", "decomposition of the caller's spectral matrix", sv is not None and sv[0]["SD"] is g["Sy"])
+        if sv is not None:
+            c.oblige("post", "singular values and vectors of that decomposition", env["Sval"] is sv[1][0] and env["Svec"] is sv[1][1])
+        c.oblige("post", "the caller's frequency grid", env["freq"] is g["freq"])
+        c.oblige("post", "the caller's selected frequencies", env["sel_freq"] is g["sel_freq"])
+        c.oblige("post", "first-stage band DF1", sym.same(env["DF"], g["DF1"]), {"DF": str(env["DF"])[:60]})
+        c.memo["ghost:efdd_called"] = True
+        raise PathEnd()
+
+
+@register
+class EFDD_mpe_first_stage(Contract):
+    qualname = "pyoma2.functions.fdd.EFDD_mpe"
+    props = ("C06",)
+    name = "first stage"
+    generic_replay = False
+    callable_modular = False
+    use = {"pyoma2.functions.fdd.SD_svalsvec": "havoc-flow", "pyoma2.functions.fdd.FDD_mpe": "first-stage-probe"}
+    bounded_driver = {"driver": "c06_fdd", "inputs": {}}
+
+    def witness(self, o):
+        return dict(self.bounded_driver)
+
+    def setup(self, c):
+        g = {"Sy": sym.Opaque("Sy"), "freq": sym.Opaque("freq"), "sel_freq": Seq(S.integer("n_sel", lo=1), lambda k: sym.Opaque("f_sel")),
+             "DF1": S.real("DF1", pos=True)}
+        c.memo["ghost:efdd"] = g
+        return {"Sy": g["Sy"], "freq": g["freq"], "dt": S.real("dt", pos=True), "sel_freq": g["sel_freq"], "methodSy": "per", "method": "FSDD",
+                "DF1": g["DF1"], "DF2": S.real("DF2", pos=True), "cm": 1, "MAClim": sym.toF(0.85), "sppk": 3, "npmax": 20}
+
+    def check(self, c, pre, post, outcome):
+        # reached only if the first stage was never called (the probe cuts the path)
+        c.oblige("post", "the first stage (FDD_mpe) is called", False)
